@@ -262,24 +262,14 @@ Definition muc_ok (inner : list token) : bool :=
              if str_eqb (snd (fst c)) s_history then history_ok (snd c) else true)
           (direct_starts 0 inner).
 
-(* Command.UnmarshalXML decodes EVERY direct child whose local name is "x" into Form, whose
-   XMLName tag demands the namespace jabber:x:data: an <x/> of another namespace fails the
-   whole DecodeElement (finding "command-foreign-x").  Its other children (actions, note,
-   anything else as Node) are consumed whole, so the loop ends at its own end tag only. *)
-Definition command_ok (inner : list token) : bool :=
-  forallb (fun c : name * list attr =>
-             if str_eqb (snd (fst c)) s_x then str_eqb (fst (fst c)) ns_xdata else true)
-          (direct_starts 0 inner).
-
 (* "the registered child is well-typed for its Go struct": content on which DecodeElement
-   into the registered type fails.  Only the MUC history conversions and the Form name check
-   of Command are modelled (PubSubEvent / PubSubOwner skip unknown children since ac3889a and
-   consume their element exactly); for every other registered type the model says "decodes" - an assumption about those types that
+   into the registered type fails.  Only the MUC history conversions are modelled
+   (PubSubEvent / PubSubOwner skip unknown children since ac3889a, Command decodes an <x/>
+   outside jabber:x:data as a generic Node since beca765: they consume their element exactly); for every other registered type the model says "decodes" - an assumption about those types that
    the correspondence run validates for the (valid) contents the generator produces. *)
 Definition ext_ok (k : kind) (n : name) (a : list attr) (inner : list token) : bool :=
   match k with
   | KPresence => if name_eqb n muc_x_name then muc_ok inner else true
-  | KIQ => if name_eqb n command_name then command_ok inner else true
   | _ => true
   end.
 
@@ -316,14 +306,13 @@ Definition iq_child : handler := fun n a r =>
 Definition child_of (k : kind) : handler :=
   match k with KIQ => iq_child | _ => stanza_child k end.
 
-(* SMFailed.UnmarshalXML: a child whose LOCAL name is a listed condition is decoded into its
-   struct, whose XMLName tag demands the namespace urn:ietf:params:xml:ns:xmpp-stanzas
-   (another namespace: the DecodeElement fails - finding "failed-condition-foreign-ns");
-   any other child is skipped (D23 repaired).  The h attribute is parsed leniently
-   (d770553): no error whatever its value. *)
+(* SMFailed.UnmarshalXML (after 92db6e3 and the D23 repair): a child outside the namespace
+   urn:ietf:params:xml:ns:xmpp-stanzas is skipped whatever its name; inside it, a listed
+   condition is decoded into its (tag-driven, matching) struct and any other name is skipped.
+   Every branch consumes the child whole; the h attribute is parsed leniently (d770553). *)
 Definition failed_child : handler := fun n _ r =>
-  if mem (snd n) sm_conditions then (if str_eqb (fst n) ns_stanzas then skip r else None)
-  else skip r.
+  if str_eqb (fst n) ns_stanzas && mem (snd n) sm_conditions then skip r   (* DecodeElement *)
+  else skip r.                                                            (* d.Skip() *)
 
 (* StreamFeatures (tag-driven): the starttls child runs TlsStartTLS.UnmarshalXML *)
 Definition features_child : handler := fun n _ r =>
@@ -453,15 +442,12 @@ Definition pkts_of (items : list node) : list result :=
 (* hypotheses on a top-level element's content.  Children are ARBITRARY trees except:
    - a child of a stanza that the registry maps to a Go type must be well-typed for that
      type ([ext_ok]; D18),
-   - a child of <failed/> whose local name is a listed condition must be in the stanzas
-     namespace,
    and the element's own uint-typed attribute (h, max) must convert. *)
 Definition child_ok (tk : top_kind) (c : node) : bool :=
   match c with
   | NElem n a cs =>
       match tk with
       | TKStanza k => if registered k n then ext_ok k n a (flatten_all cs) else true
-      | TKFailed => if mem (snd n) sm_conditions then str_eqb (fst n) ns_stanzas else true
       | _ => true
       end
   | _ => true
